@@ -14,7 +14,9 @@ ROOT = '/verif/seeded'
 EXTRA = {'C01-1': ['C03'], 'C19-3': ['C17'], 'C02-2': ['C03'],
          'C03-3': ['C05'], 'C10-3': ['C01'], 'C01-w2-2': ['C12'],
          'C20-w2-1': ['C09'], 'C09-w2-1': ['C08'], 'C09-w3-2': ['C08'],
-         'C07-w3-1': ['C14'], 'C06-w3-1': ['C17']}
+         'C07-w3-1': ['C14'], 'C06-w3-1': ['C17'], 'C16-w4-1': ['C17', 'C06'],
+         'C17-w4-2': ['C06'], 'C03-w4-2': ['C02'], 'C01-w4-2': ['C02'],
+         'C07-w4-1': ['C14'], 'C11-w4-2': ['C10']}
 jobs = int(sys.argv[1]) if len(sys.argv) > 1 else 3
 only = sys.argv[2] if len(sys.argv) > 2 else ''
 
